@@ -396,7 +396,7 @@ func runC18(c *Ctx) {
 					switch {
 					case isCall && strings.HasSuffix(calleeName(&cl.Call), "DirEntry).IsDir") && !f.Pol:
 						sawDir = true
-					case isCall && calleeName(&cl.Call) == "strings.HasPrefix" && f.Pol && strings.Contains(describe(cl.Call.Args[1]), ":prefix") &&
+					case isCall && calleeName(&cl.Call) == "strings.HasPrefix" && f.Pol && describe(cl.Call.Args[1]) == "param:prefix" &&
 						(describe(cl.Call.Args[0]) == "path/filepath.ToSlash(param:path)" || cl.Call.Args[0] == gs.elem || describe(cl.Call.Args[0]) == ed):
 						sawPrefix = true
 					case isLoopMechanics(f):
